@@ -312,10 +312,11 @@ func EqualTypedValues(v1, v2 *sdcpb.TypedValue) bool {
 			if v1 == nil || v2 == nil {
 				return false
 			}
-			if v1.DecimalVal.GetDigits() != v2.DecimalVal.GetDigits() {
-				return false
-			}
-			return v1.DecimalVal.GetPrecision() == v2.DecimalVal.GetPrecision()
+			// the same number may come with different precision (1.50 is 150/2 and 15/1):
+			// compare the numbers, not their representation
+			d1, p1 := normalizeDecimal64(v1.DecimalVal)
+			d2, p2 := normalizeDecimal64(v2.DecimalVal)
+			return d1 == d2 && p1 == p2
 		default:
 			return false
 		}
@@ -454,6 +455,17 @@ func EqualTypedValues(v1, v2 *sdcpb.TypedValue) bool {
 	}
 	// v1 carries no value at all: equal only to another value-less TypedValue
 	return v2.GetValue() == nil
+}
+
+// normalizeDecimal64 returns digits and precision of d without trailing zeros in the
+// fraction, the unique representation of the number d denotes.
+func normalizeDecimal64(d *sdcpb.Decimal64) (int64, uint32) {
+	digits, precision := d.GetDigits(), d.GetPrecision()
+	for precision > 0 && digits%10 == 0 {
+		digits /= 10
+		precision--
+	}
+	return digits, precision
 }
 
 func TypedValueToString(tv *sdcpb.TypedValue) string {
